@@ -739,16 +739,27 @@ impl<'w, 'r, 'gc> Cb<'w, 'r, 'gc> {
                 if self.w.handles.contains_key(handle) || self.w.sh.groups.values().any(|_| false) {
                     return self.skip();
                 }
-                let real = match oany {
+                // stash never panics on a sound tree (an injected fault cannot fire inside it: it
+                // traces nothing), so a panic here is the slot table's
+                let stashed = std::panic::catch_unwind(std::panic::AssertUnwindSafe(|| match oany {
                     AnyGc::Node(g) => {
                         let _t = seam::track();
-                        RealHandle::Node(s.stash::<NodeRootable>(mc, g))
+                        Some(RealHandle::Node(s.stash::<NodeRootable>(mc, g)))
                     }
                     AnyGc::Field(g) => {
                         let _t = seam::track();
-                        RealHandle::Field(s.stash::<FieldRootable>(mc, g))
+                        Some(RealHandle::Field(s.stash::<FieldRootable>(mc, g)))
                     }
-                    _ => return self.skip(),
+                    _ => None,
+                }));
+                let real = match stashed {
+                    Ok(Some(r)) => r,
+                    Ok(None) => return self.skip(),
+                    Err(p) => {
+                        let m = panic_message(&p);
+                        self.w.violate_with("C14.panic", &["C10.panic"], format!("DynamicRootSet::stash of {obj} panicked: {m}"));
+                        return;
+                    }
                 };
                 self.cover_write("stash", Some(inner), Some(*obj));
                 if self.w.sh.groups.values().any(|g| g.inner == inner && g.count == 0) {
